@@ -38,10 +38,11 @@ Definition is_nonzero_digit (c : Z) : bool := (49 <=? c)%Z && (c <=? 57)%Z.
 (* [-]?[1-9]\d*|0 *)
 Definition is_canonical_index (s : str) : bool :=
   match s with
-  | [48%Z] => true
-  | 45%Z :: d :: r => is_nonzero_digit d && forallb is_digit r
-  | d :: r => is_nonzero_digit d && forallb is_digit r
   | [] => false
+  | c :: r =>
+      if Z.eqb c 48 then match r with [] => true | _ :: _ => false end
+      else if Z.eqb c 45 then match r with d :: r' => is_nonzero_digit d && forallb is_digit r' | [] => false end
+      else is_nonzero_digit c && forallb is_digit r
   end.
 
 Fixpoint strip_prefix (p s : str) : option str :=
@@ -61,10 +62,11 @@ Fixpoint strip_last (s : str) : option (str * Z) :=      (* s = body ++ [c] *)
 (* "_{" index "}" *)
 Definition is_index_tail (s : str) : bool :=
   match s with
-  | 95%Z :: 123%Z :: r =>
+  | a :: b :: r =>
+      Z.eqb a 95 && Z.eqb b 123 &&
       match strip_last r with
-      | Some (body, 125%Z) => is_canonical_index body
-      | _ => false
+      | Some (body, c) => Z.eqb c 125 && is_canonical_index body
+      | None => false
       end
   | _ => false
   end.
